@@ -236,6 +236,7 @@ impl<'a> Gen<'a> {
         let max_ops = if thorough { 14 } else { 10 };
         let mut kinds: Vec<&str> = ops::all_wrapper_kinds();
         kinds.extend(ops::RAW);
+        kinds.extend(ops::CORE_ONLY);
         // workload mix varies per run
         let focus: Vec<&str> = (0..6).map(|_| *self.rng.pick(&kinds)).collect();
         let inject_rate = *self.rng.pick(&[0u64, 0, 1, 2, 4]); // out of 16
@@ -286,6 +287,7 @@ impl<'a> Gen<'a> {
         kinds.extend(ops::ZDT_METHODS);
         kinds.extend(ops::OTHER_WRAPPERS);
         kinds.extend(ops::NOW_LOCKED);
+        kinds.extend(ops::CORE_ONLY);
         let mut v = vec![];
         let restart_rate = *self.rng.pick(&[0u64, 0, 1, 3]);
         for _ in 0..n {
@@ -343,12 +345,15 @@ impl<'a> Gen<'a> {
     pub fn plan_c03(&mut self, seed: u64, thorough: bool) -> Plan {
         let n_threads = 1 + self.rng.below(3) as usize;
         let max_ops = if thorough { 12 } else { 8 };
-        let kinds = ops::all_wrapper_kinds();
+        let mut kinds = ops::all_wrapper_kinds();
+        kinds.extend(ops::RAW);
+        kinds.extend(ops::CORE_ONLY);
         let mut twin_kinds: Vec<&str> = vec![];
         twin_kinds.extend(ops::ZDT_ACCESSORS);
         twin_kinds.extend(ops::ZDT_METHODS);
         twin_kinds.extend(ops::OTHER_WRAPPERS);
         twin_kinds.extend(ops::NOW_LOCKED);
+        twin_kinds.extend(ops::CORE_ONLY);
         let inject_rate = *self.rng.pick(&[0u64, 1, 3]);
         let f10_rate = *self.rng.pick(&[0u64, 2, 5]);
         let mut threads = vec![];
